@@ -332,8 +332,11 @@ def rule_r2(p, res):
         if "inplace" in name:
             r.check(any(isinstance(n, ast.Raise) for n in ifs[0].orelse), f, ifs[0], "%s must refuse partners outside the gate" % f.short)
         else:
-            oc = [norm(c.func) for c in calls_in(ast.Module(body=ifs[0].orelse, type_ignores=[]))]
-            r.check(("Transform." + name) in oc, f, ifs[0], "%s must fall back to a TransformChain outside the gate" % f.short)
+            ocs = [c for c in calls_in(ast.Module(body=ifs[0].orelse, type_ignores=[])) if norm(c.func) == "Transform." + name]
+            r.check(len(ocs) == 1, f, ifs[0], "%s must fall back to a TransformChain outside the gate" % f.short)
+            for c in ocs:
+                r.check([norm(a) for a in c.args] == ["self", f.params[1]], f, c, "%s falls back with the operands in the order %s: the chain must be built for (self, %s), otherwise the "
+                        "composite applies the two maps in the wrong order" % (f.short, [norm(a) for a in c.args], f.params[1]), {"fallback": norm(c)})
     for nm in ("compose_before", "compose_after", "compose_before_inplace", "compose_after_inplace"):
         for c in fam:
             if nm in c.methods:
@@ -508,6 +511,8 @@ WITNESSES = [
     Witness("C03.W10", "menpo/transform/homogeneous/base.py", "Homogeneous._compose_after",
             "new_self = Similarity(self.h_matrix)\n        new_self._compose_after_inplace(t)", "new_self = Similarity(self.h_matrix)\n        new_self._compose_before_inplace(t)",
             rule="C03.R1", construct="Homogeneous._compose_after", note="seeded change C03-A"),
+    Witness("C03.W11", "menpo/transform/base/composable.py", "ComposableTransform.compose_after", "Transform.compose_after(self, transform)", "Transform.compose_after(transform, self)",
+            rule="C03.R2", construct="compose_after", note="seeded change R2-C03-C"),
     Witness("C03.T1", "menpo/transform/homogeneous/base.py", "Homogeneous._compose_before_inplace",
             "np.dot(transform.h_matrix, self.h_matrix)", "transform.h_matrix.dot(self.h_matrix)", kind="T"),
 ]
